@@ -151,7 +151,19 @@ fn process(
             return;
         }
         let original_len = out.tape.len();
-        let (small, tried) = runner::shrink(prop, tier, out.tape.clone(), v.clause, &v.signature, 3000, 20.0);
+        // marker for the driver: if the process dies while shrinking (e.g. a candidate
+        // overflows the stack), the violation of this run is still reported, unshrunk
+        out_line(&format!(
+            "K {}",
+            J::obj()
+                .set("run_index", J::i(run_index))
+                .set("clause", J::s(v.clause))
+                .set("signature", J::s(&v.signature))
+                .set("message", J::s(&v.msg))
+                .set("tape", J::Arr(out.tape.iter().map(|x| J::u(*x as u64)).collect()))
+                .to_string()
+        ));
+        let (small, tried) = runner::shrink(prop, tier, out.tape.clone(), v.clause, &v.signature, 3000, 10.0);
         let (tape_final, jv) = match runner::replay_file_json(prop, tier, &small, base_seed, run_index, original_len, tried, repo_rev) {
             Some((j, v2)) if v2.clause == v.clause => (small, Some((j, v2))),
             _ => {
@@ -161,6 +173,7 @@ fn process(
             }
         };
         let _ = tape_final;
+        out_line("k");
         match jv {
             Some((j, v2)) => {
                 let _ = std::fs::create_dir_all(format!("{}/{}", out_dir, prop));
@@ -245,7 +258,7 @@ fn cmd_worker(a: &Args) -> i32 {
     let out_dir = a.map.get("out-dir").cloned().unwrap_or_else(|| "/verif/replays".to_string());
     let repo_rev = a.map.get("repo-rev").cloned().unwrap_or_default();
     let hash_file = a.map.get("hash-file").cloned();
-    let max_violations: u64 = a.map.get("max-violations").and_then(|s| s.parse().ok()).unwrap_or(6);
+    let max_violations: u64 = a.map.get("max-violations").and_then(|s| s.parse().ok()).unwrap_or(3);
     let recheck_every: u64 = a.map.get("recheck-every").and_then(|s| s.parse().ok()).unwrap_or(100);
     let sample_every: u64 = ((rb - ra) / 3).max(1);
 
